@@ -54,7 +54,7 @@ def main():
     head = "HEAD of /repo: %s\n" % subprocess.check_output(["git", "-C", "/repo", "rev-parse", "--short", "HEAD"], text=True).strip()
     fn = "REGRESSION.txt" if not args else "REGRESSION-partial.txt"
     open(os.path.join(HERE, "seeded", fn), "w").write(head + "\n".join(out) + "\n")
-    subprocess.run(["git", "-C", HERE, "checkout", "--", "evidence"], stderr=subprocess.DEVNULL)
+    pass  # evidence of scratch-worktree runs goes to a scratch directory (core.EVIDENCE)
 
 
 if __name__ == "__main__":
